@@ -212,6 +212,10 @@ async fn handle_stream(
         }
 
         let mut ts = topics.lock().await;
+        #[cfg(selium_verif)]
+        let verif_id = crate::verif::next_id();
+        #[cfg(selium_verif)]
+        crate::verif::emit("hs_lock_acquired", &format!("{verif_id} {topic}"));
 
         // Spawn new topic if it doesn't exist yet
         if !ts.contains_key(topic) {
@@ -222,6 +226,8 @@ async fn handle_stream(
 
                     topic_handles.lock().await.push(handle);
                     ts.insert(topic.clone(), Sender::Pubsub(tx));
+                    #[cfg(selium_verif)]
+                    crate::verif::emit("hs_topic_created", &format!("{verif_id} {topic} pubsub"));
                 }
                 Frame::RegisterReplier(_) | Frame::RegisterRequestor(_) => {
                     let (fut, tx) = reqrep::Topic::pair();
@@ -229,6 +235,8 @@ async fn handle_stream(
 
                     topic_handles.lock().await.push(handle);
                     ts.insert(topic.clone(), Sender::ReqRep(tx));
+                    #[cfg(selium_verif)]
+                    crate::verif::emit("hs_topic_created", &format!("{verif_id} {topic} reqrep"));
                 }
                 _ => unreachable!(), // because of `topic` instantiation
             };
@@ -237,6 +245,8 @@ async fn handle_stream(
         // Only a handle to the topic's registration channel leaves the critical section:
         // waiting for room in one topic's channel must not block registrations on all topics
         let mut tx = ts.get(topic).unwrap().clone();
+        #[cfg(selium_verif)]
+        crate::verif::emit("hs_lock_released", &format!("{verif_id} {topic}"));
         drop(ts);
 
         // A topic serves one messaging pattern, fixed by its first registration. Refuse a
@@ -255,6 +265,8 @@ async fn handle_stream(
         }
 
         stream.send(Frame::Ok).await?;
+        #[cfg(selium_verif)]
+        crate::verif::emit("hs_send_begin", &format!("{verif_id} {topic}"));
 
         match frame {
             Frame::RegisterPublisher(_) => {
@@ -289,6 +301,8 @@ async fn handle_stream(
             }
             _ => unreachable!(), // because of `topic` instantiation
         }
+        #[cfg(selium_verif)]
+        crate::verif::emit("hs_send_end", &format!("{verif_id} {topic}"));
     } else {
         info!("Stream closed");
     }
